@@ -364,6 +364,32 @@ class Setup:
                 continue
         return False
 
+    def contains_valid_new_block(self, data):
+        """does the stream carry a block that breaks NO rule at all on a parent the node holds (reference's judgement)?  The
+        corruption then happens to have produced valid content (typically: the one bit that made the base frame's block
+        invalid was flipped back) -- accepting it is what the node should do"""
+        try:
+            payloads, _r, _rest = ref.parse_frames(data)
+        except Exception:
+            return False
+        worlds = [self.world] + ([self.tmp] if getattr(self, "tmp", None) is not None else [])
+        for p in payloads:
+            try:
+                hdr, body = ref.parse_msg_header(p)
+                if body[:2] != b"\x00\x04" or body[3:5] != b"\x00\x00":
+                    continue
+                rb = ref.dec_block(body[5:], strict=False)[0]
+            except Exception:
+                continue
+            for wd in worlds:
+                try:
+                    if rb.prev in wd.chain.blocks and rb.id() not in wd.chain.blocks \
+                            and not ref.block_codes(wd.chain, rb, self.sn.net.clock.t):
+                        return True
+                except Exception:
+                    continue
+        return False
+
     def contains_bulk_block(self, data):
         try:
             payloads, _r, _rest = ref.parse_frames(data)
@@ -524,6 +550,15 @@ class Setup:
                     # took from a bulk download without validating them -- falling back to the last validated state is the
                     # node's documented reaction to that (C09's subject, not malformed input)
                     c["out_of_domain_rule_breaking_block_while_unvalidated"] = c.get("out_of_domain_rule_breaking_block_while_unvalidated", 0) + 1
+                    self.heal()
+                    have = {t.hash() for t in sn.pool()}
+                    for t in self.pooled:
+                        if t.id() not in have:
+                            sn.cm.add_transaction_to_pool(bridge.rtx_to_real(t))
+                elif greeted and self.contains_valid_new_block(conn_bytes):
+                    # [domain] the corrupted bytes happen to BE a fully valid new block (the single bit that made the base
+                    # frame's block invalid was flipped back): accepting it is what the node should do
+                    c["out_of_domain_valid_block"] = c.get("out_of_domain_valid_block", 0) + 1
                     self.heal()
                     have = {t.hash() for t in sn.pool()}
                     for t in self.pooled:
@@ -826,7 +861,9 @@ def replay(mon, w):
     if esc:
         mon.v("exception-escaped-event-loop:" + esc[0].split(":")[0], esc[0][:300], w)
     after = st.fingerprint()
+    st.tmp = None
     if after != before and not st.contains_bulk_block(bytes.fromhex(w["stream"])) and not (
+            w.get("greeted", True) and st.contains_valid_new_block(bytes.fromhex(w["stream"]))) and not (
             w.get("greeted", True) and st.only_valid_transactions_admitted(before, after)):
         mon.v("hostile-input-changed:state", "replayed stream changed the node's state", w)
     st.probe(w)
